@@ -19,6 +19,8 @@ for mp in sorted(glob.glob(os.path.join(ROOT, "seeded", "*", "meta.json"))):
                   ("VIOLATION no-failing-input-found (%s)" % ", ".join(t.split(".")[-1] for t in rep.get("failed_theorems", [])[:3]))
     else:
         verdict = "MISSED (exit %s)" % chk.get("exit")
+    if m.get("history"):
+        verdict += " — AFTER the check was strengthened/repaired (first run: " + ("exit 2" if "exit 2" in m["history"] else "missed") + ")"
     rows.append(f"| {name} | {m.get('property')} | {m.get('what', '')[:170]} | {m.get('needs_to_manifest', '')[:150]} | "
                 f"demo {conf.get('demo_clean_exit')}/{conf.get('demo_changed_exit')}, tests {conf.get('baseline_tests_pass')} | {verdict} |")
 print("| seed | property | change | needs | confirmed (demo clean/changed exit, 53 tests) | check verdict |")
